@@ -374,6 +374,12 @@ func checkC12(tier string) *Report {
 	}
 	rep.Guard(rep.Outcomes["successful-transfer"] > 100 && rep.Outcomes["no-stat-change-expected"] > 100, "outcome classes missing: %v", rep.Outcomes)
 	rep.Guard(rep.Counters["states"] >= 200, "too few states: %d", rep.Counters["states"])
+	// chain level: the real block history of loop.go (signed transactions, IBC core over the localhost client); the
+	// statistics at its end must be the fold of the transfers core acknowledged with success
+	if _, err := loopRun(rep, tier == "thorough"); err != nil {
+		rep.HarnessError("real block history: %v", err)
+	}
+	rep.Guard(rep.Outcomes["real-history-statistics-equal-the-fold"]+int64(rep.NumViolations()) > 0, "real block history did not reach the statistics comparison")
 	return rep
 }
 
